@@ -57,12 +57,15 @@ class Stack:
     deque: deque[bytes]
     max_items: int
     max_item_size: int
+    returned: bool
 
     def __init__(self, max_items: int = 1024, max_item_size: int = 1024) -> None:
         """Initialize an empty Stack."""
         self.max_items = max_items
         self.max_item_size = max_item_size
         self.deque = deque(maxlen=self.max_items)
+        # set by OP_RETURN until the construct it ends has consumed it
+        self.returned = False
 
     def get(self) -> bytes:
         """Get the top item of the Stack. Raises IndexError if the deque
